@@ -3,12 +3,13 @@
    string (= polygon without holes x line string) and ring x ring (= polygon x
    polygon without holes) are proved exact as point sets, hence symmetric,
    through a discrete Jordan-curve argument (Jordan.v, JordanQ.v, JordanRing.v);
-   exactness of pairs involving holes is NOT proved and is decided by the
+   with holes: polygon x line string (fewer than 16 points) under explicit validity
+   hypotheses (Holes.v); the other pairs involving holes are NOT proved and are decided by the
    differential correspondence against the executable oracle PairSpec.meets_x on
    every run. *)
 From Coq Require Import QArith.
 From GJ Require Import Base Kernel KernelSpec KernelProofs IntersectsProofs IntersectsQ Series SeriesSpec
-  Ring RingSpec PipProofs PairProofs Jordan JordanQ JordanRing JordanRect.
+  Ring RingSpec PipProofs PairProofs Jordan JordanQ JordanRing JordanRect Convex Holes.
 Open Scope Z_scope.
 
 (* segments: true exactly when the closed segments share a point; symmetric *)
@@ -144,6 +145,51 @@ Theorem C02_polygon_without_holes_rect : forall e q, rect_wf q ->
    exists k P, 0 < k /\ in_ringb (edges_at k e) P = true /\ in_rectb (scr k q) P = true).
 Proof. exact poly_intersects_rect_noholes. Qed.
 
+(* ---- a polygon WITH holes against a line string of fewer than 16 points (Holes.v) ----
+   each hole either not flagged convex, or flagged convex and really convex (Convex.hpc):
+   (1) no validity assumption: true exactly when the line shares a point with the closed exterior
+       and is not wholly strictly inside a hole;
+   (2) valid polygon (every boundary point of a hole is in the closed exterior and strictly inside
+       no hole): true exactly when the line string and exterior-minus-hole-interiors share a
+       rational point *)
+Theorem C02_polygon_with_holes_line : forall e hs qs,
+  Forall hole_ok hs -> (length qs < 16)%nat ->
+  (poly_intersects_line (Pg e hs) (Lr qs) = true <->
+   ((3 <= length e)%nat /\ (2 <= length qs)%nat /\
+    exists sg, In sg (path_segs qs) /\ shares_point e (fst sg) (snd sg)) /\
+   forall h, In h hs -> ~ line_strictly_inside h qs).
+Proof. exact poly_intersects_line_holes. Qed.
+Theorem C02_polygon_with_holes_line_pointset : forall e hs qs,
+  Forall hole_ok hs -> holes_valid e hs -> (length qs < 16)%nat ->
+  (poly_intersects_line (Pg e hs) (Lr qs) = true <->
+   (3 <= length e)%nat /\ (2 <= length qs)%nat /\
+   exists sg, In sg (path_segs qs) /\ poly_shares_point e hs (fst sg) (snd sg)).
+Proof. exact poly_intersects_line_pointset. Qed.
+(* non-vacuity: a square with a square hole *)
+Example C02_holes_hypotheses_hold_somewhere :
+  let e := rect_points ((0,0),(8,8)) in let h := rect_points ((2,2),(4,4)) in
+  Forall hole_ok [h] /\ holes_valid e [h] /\
+  poly_intersects_line (Pg e [h]) (Lr [(3,3); (3,6)]) = true /\
+  poly_intersects_line (Pg e [h]) (Lr [(3,3); (3,4)]) = true /\
+  poly_intersects_line (Pg e [h]) (Lr [(3,3); (3,3)]) = false.
+Proof.
+  cbv zeta. split; [|split; [|vm_compute; repeat split]].
+  - constructor; [|constructor]. right. split; [vm_compute; reflexivity|]. exists 1. split; [left; reflexivity|]. split.
+    + intros a b c d Hab Hcd. vm_compute in Hab, Hcd.
+      destruct Hab as [E1|[E1|[E1|[E1|[]]]]]; destruct Hcd as [E2|[E2|[E2|[E2|[]]]]];
+        inversion E1; inversion E2; subst; vm_compute; split; discriminate.
+    + intros a b Hab. vm_compute in Hab. destruct Hab as [E1|[E1|[E1|[E1|[]]]]]; inversion E1; subst; discriminate.
+  - intros h [<-|[]] k f S Hk Hf Hon. split.
+    + rewrite in_ringb_rect_at by (try exact Hk; unfold rect_wf; cbn; lia).
+      rewrite edges_at_map in Hf by exact Hk. apply in_map_iff in Hf. destruct Hf as (f0 & <- & Hf0).
+      vm_compute in Hf0. destruct Hf0 as [<-|[<-|[<-|[<-|[]]]]];
+        unfold scs, Invariance.affs, Invariance.aff, on_seg, px, py in Hon; cbn [fst snd] in Hon;
+        unfold in_rectb, scr, sc, Invariance.aff, px, py; cbn [fst snd];
+        rewrite !andb_true_iff, !Z.leb_le; lia.
+    + intros h' [<-|[]]. unfold strictly_in_ringb. apply andb_false_iff. left. apply negb_false_iff.
+      apply on_boundaryb_iff. exists f. split; assumption.
+Qed.
+
 (* non-vacuity of the ring x ring statement: a small square nested in a big one (no edges meet;
    either operand order), two overlapping squares, two disjoint squares *)
 Example C02_ring_ring_examples :
@@ -190,6 +236,8 @@ Print Assumptions C02_polygons_without_holes.
 Print Assumptions C02_polygons_without_holes_symmetric.
 Print Assumptions C02_polygon_without_holes_line.
 Print Assumptions C02_rect_line_pointset.
+Print Assumptions C02_polygon_with_holes_line.
+Print Assumptions C02_polygon_with_holes_line_pointset.
 Print Assumptions C02_polygon_without_holes_rect.
 Print Assumptions C02_rect_rect.
 Print Assumptions C02_line_line.
